@@ -770,6 +770,97 @@ fn loop_value_grid() -> (u64, Vec<Violation>) {
     (n, out)
 }
 
+/// A binder binds what it is given, whatever else its name means around it: every binding form
+/// (type arm, if-set, while-set, for, destructuring, declaration, parameter of an inner function,
+/// of a callback, nested arms) whose body computes with the bound name and chooses an exit by it,
+/// x what the same spelling means outside (nothing, a constant of the same / another type at top
+/// level or earlier in the function, a parameter, a cell, a function) x the scrutinee (literal,
+/// parameter, union-typed parameter, cell read) x the binder's type. Oracle: renaming the binder
+/// to a fresh name changes nothing (acceptance, result, exits).
+fn binder_names_grid() -> (u64, u64, Vec<Violation>) {
+    const CONSTRUCTS: &[(&str, &str)] = &[
+        ("match type arm", "return match S { B: T => B * 10 + 1, => -1, };"),
+        ("match type arm choosing an exit", "loop { match S { B: T => { if B > 6 { return 100 }; break }, => { return -1 }, } }; return 50;"),
+        ("if-set", "if B: T = S { return B * 10 + 1 }; return -1;"),
+        ("if-set choosing an exit", "if B: T = S { if B > 6 { return 100 }; return 200 }; return -1;"),
+        ("while-set", "while B: T = S { return B * 10 + 1 }; return -1;"),
+        ("while-set choosing an exit", "k := mut 0; while B: T = S { k += 1; if B > 6 { break }; if *k > 3 { return 300 }; continue }; return *k;"),
+        ("for", "for B in [S]~ { return B * 10 + 1 }; return -1;"),
+        ("destructuring", "(B, zz) := (S, 0); return B * 10 + 1;"),
+        ("declaration", "B := S; return B * 10 + 1;"),
+        ("declaration in a block", "r := { B := S; B * 10 + 1 }; return r;"),
+        ("inner function parameter", "g := (B: T) -> int { return B * 10 + 1 }; return g(S);"),
+        ("map callback parameter", "return [S]~ @ (B: T) -> int { return B * 10 + 1 } $];"),
+        ("filter callback parameter", "return [S, 3]~ ? (B: T) -> bool { return B > 6 } $];"),
+        ("reduce callback parameter", "return [S]~ $ 0 (acc: int, B: T) -> int { return acc + B * 10 + 1 };"),
+        ("nested type arms", "return match S { B: T => match B { B: T => B * 10 + 1, => -2, }, => -1, };"),
+        ("type arm after a value arm", "return match S { 5 => -5, B: T => B * 10 + 1, => -1, };"),
+        ("wide type arm narrowed by an if-set of the same name", "return match S { B: int | string => { if B: T = B { return B * 10 + 1 }; return -3 }, => -1, };"),
+        ("wide if-set narrowed by a type arm of the same name", "if B: int | string = S { return match B { B: T => B * 10 + 1, => -3, } }; return -1;"),
+        ("any-typed arm narrowed by an if-set of another name", "return match S { B: any => { if w: T = B { return w * 10 + 1 }; return -3 }, };"),
+    ];
+    // (what the spelling `n` means outside: at top level, as a parameter (text, argument), first in the body)
+    const OUTERS: &[(&str, &str, &str, &str, &str)] = &[
+        ("nothing", "", "", "", ""),
+        ("top-level int constant", "n := 5;", "", "", ""),
+        ("top-level string constant", "n := \"s\";", "", "", ""),
+        ("top-level computed int", "n := std.len([0, 0, 0, 0, 0]);", "", "", ""),
+        ("top-level cell", "n := mut 5;", "", "", ""),
+        ("top-level function", "n := () -> int { return 5 };", "", "", ""),
+        ("earlier int constant in the body", "", "", "", "n := 5;"),
+        ("earlier string constant in the body", "", "", "", "n := \"s\";"),
+        ("earlier computed int in the body", "", "", "", "n := std.len([0, 0, 0, 0, 0]);"),
+        ("earlier cell in the body", "", "", "", "n := mut 5;"),
+        ("int parameter", "", "n: int", "5", ""),
+        ("string parameter", "", "n: string", "\"s\"", ""),
+    ];
+    const SCRUTINEES: &[(&str, &str, &str, &str, &str)] = &[
+        ("literal", "7", "", "", ""),
+        ("int parameter", "s", "s: int", "7", ""),
+        ("union-typed parameter", "s", "s: int | string", "7", ""),
+        ("cell read", "*c", "", "", "c := mut 7;"),
+        ("bound constant", "k7", "", "", "k7 := 7;"),
+    ];
+    const TYPES: &[&str] = &["int"];
+    let mut out = Vec::new();
+    let (mut n, mut both_ran) = (0u64, 0u64);
+    for (cname, ctext) in CONSTRUCTS {
+        for (oname, otop, oparam, oarg, olocal) in OUTERS {
+            for (sname, stext, sparam, sarg, slocal) in SCRUTINEES {
+                for ty in TYPES {
+                    if *ty != "int" && !ctext.contains(": T") {
+                        continue;
+                    }
+                    let build = |binder: &str| {
+                        let params: Vec<&str> = [*oparam, *sparam].into_iter().filter(|p| !p.is_empty()).collect();
+                        let args: Vec<&str> = [*oarg, *sarg].into_iter().filter(|p| !p.is_empty()).collect();
+                        let body = ctext.replace('B', binder).replace('S', stext).replace('T', ty);
+                        format!("{otop} f := ({}) -> any {{ {olocal} {slocal} {body} }}; f({})", params.join(", "), args.join(", "))
+                    };
+                    let (same, fresh) = (build("n"), build("qq"));
+                    n += 1;
+                    let show = |o: &core::Outcome| match o {
+                        core::Outcome::Value(v) => canon(v),
+                        other => other.tag(),
+                    };
+                    let (a, b) = (core::run_text(&same, true, core::QUICK_FUEL), core::run_text(&fresh, true, core::QUICK_FUEL));
+                    if matches!(a, core::Outcome::Value(_)) && matches!(b, core::Outcome::Value(_)) {
+                        both_ran += 1;
+                    }
+                    let (ga, gb) = (show(&a), show(&b));
+                    if ga != gb {
+                        out.push(Violation {
+                            sig: format!("C12|binder-name|{cname}|outside={oname}|scrutinee={sname}|T={}", ty.replace(" | ", "/")),
+                            detail: json!({"kind": "program", "stdlib": true, "text": same, "the same program with the binder renamed to a fresh name": fresh, "expected": gb, "observed": ga}),
+                        });
+                    }
+                }
+            }
+        }
+    }
+    (n, both_ran, out)
+}
+
 /// A failing operation on values captured by a function value fails when it is reached and
 /// only then: creating the function value evaluates nothing of its body (so a branch that is not
 /// chosen, or a function that is never called, cannot make the program fail), and reaching the
@@ -1135,6 +1226,9 @@ pub fn run(tier: &str) -> i32 {
     report.violations(boundaries.1);
     let arm_order = core::on_big_stack(arm_order_grid);
     report.violations(arm_order.2);
+    let binder_names = core::on_big_stack(binder_names_grid);
+    assert!(binder_names.1 * 2 > binder_names.0, "binder-name grid: most pairs must run ({} of {})", binder_names.1, binder_names.0);
+    report.violations(binder_names.2);
     let unreached = core::on_big_stack(|| unreached_failures("C12"));
     report.violations(unreached.1);
     samples.push(|| json!({"program": program(&all[all.len() / 2]), "shape": shape(&all[all.len() / 2])}));
@@ -1148,6 +1242,8 @@ pub fn run(tier: &str) -> i32 {
         "programs": programs,
         "runs": runs,
         "constant_twins_the_checker_rejected": rejected_constant_twins,
+        "binder_name_pairs (19 binding forms x 12 outside meanings x 5 scrutinees; binder named like the outside name vs fresh)": binder_names.0,
+        "binder_name_pairs_in_which_both_programs_ran": binder_names.1,
         "scrutinee_values": scr.len() * 2,
         "max_nesting_depth": max_depth,
         "generated_programs_not_accepted": rejected,
